@@ -33,9 +33,11 @@ func (s *Sim) clientUpdate(addHashes []u.Hash, blockTargets []uint64, ud u.Updat
 	udc := u.UpdateData{ToDestroy: copyU64(ud.ToDestroy), PrevNumLeaves: ud.PrevNumLeaves,
 		NewDelHash: copyHashes(ud.NewDelHash), NewDelPos: copyU64(ud.NewDelPos),
 		NewAddHash: copyHashes(ud.NewAddHash), NewAddPos: copyU64(ud.NewAddPos)}
+	pBefore, hBefore := cpProof(c.proof), copyHashes(c.hashes)
 	r := guard(watchdog, func() {
 		out, err = c.proof.Update(c.hashes, copyHashes(addHashes), copyU64(blockTargets), rem, udc)
 	})
+	emitPUpdate(pBefore, hBefore, addHashes, blockTargets, rem, ud, r, err, out, c.proof)
 	remStr := "-"
 	if len(rem) > 0 {
 		xs := make([]uint64, len(rem))
@@ -95,10 +97,13 @@ func (s *Sim) clientUndo(rec blockRec) {
 	var out []u.Hash
 	var err error
 	bp := u.Proof{Targets: copyU64(rec.proof.Targets), Proof: copyHashes(rec.proof.Proof)}
+	pBefore, hBefore := cpProof(c.proof), copyHashes(c.hashes)
 	r := guard(watchdog, func() {
 		out, err = c.proof.Undo(uint64(len(rec.adds)), rec.numAfter, copyU64(rec.proof.Targets),
 			copyHashes(rec.delHashes), c.hashes, copyU64(rec.ud.ToDestroy), bp)
 	})
+	emitPUndo(pBefore, hBefore, uint64(len(rec.adds)), rec.numAfter, rec.proof.Targets, rec.delHashes,
+		rec.ud.ToDestroy, rec.proof, r, err, out, c.proof)
 	if r != "ok" || err != nil {
 		if r == "ok" {
 			r = "err"
